@@ -405,6 +405,13 @@ def scenarios():
                 steps.append(dict(call(a, abbr), closing=True))
         scen('option-flip-under-failure/%s/%s/%s' % (t, key, abbr), _w(cfgs), steps)
 
+    # 3d. abbreviation shapes that no seeded run executed (found with the library-reach measure), each twice
+    rm = [{'id': 'c0', 'holder': 'dict'}, {'id': 'c1', 'holder': 'Config', 'syntax': 'pug', 'text': ['w']}]
+    scen('reach-corpus/markup', _w(rm), [call(c, a) for a in ga.REACH_MARKUP for c in ('c0', 'c1', 'c0')])
+    rs = [{'id': 'c0', 'holder': 'dict', 'type': 'stylesheet', 'cache': 'k0', 'snippets': STYLE_SN},
+          {'id': 'c1', 'holder': 'Config', 'type': 'stylesheet', 'syntax': 'sass', 'cache': 'k0', 'snippets': STYLE_SN, 'options': {'stylesheet.shortHex': False}}]
+    scen('reach-corpus/stylesheet', _w(rs, caches=['k0']), [call(c, a) for a in ga.REACH_STYLESHEET for c in ('c0', 'c1', 'c0')])
+
     # 4. unbounded growth with distinct inputs (census only, no references)
     scen('distinct-inputs/markup-html', _w([{'id': 'c0', 'holder': 'dict', 'options': {'bem.enabled': True, 'comment.enabled': True}}]),
          [{'op': 'soak_distinct', 'cfg': 'c0'}])
@@ -426,6 +433,9 @@ def scenarios():
 # exhaustive placement: a failure at EVERY library function entry of a call
 
 XH_CHUNK = 60
+# size of the deterministic prefix when the seeded changes R11..X66 were evaluated: seeded history number k of a batch
+# keeps the seed of run index LEGACY + k
+LEGACY_SWEEP_SIZE = {'quick': 495, 'thorough': 4529}
 
 
 def xh_shapes():
